@@ -101,7 +101,7 @@ pub fn derived_keys(value: &[u8]) -> Result<Vec<Vec<u8>>, String> {
 }
 
 fn all_payments_valid(kind: Kind, seed: u8) -> PayCase {
-    PayCase { kind, paid: true, prior: 0, rt_peers: 4, s: SFault::Ok, p: true, k: KFault::Ok, e: EFault::Ok, o: [true; 3], a: true, own_pos: seed % 3, seed }
+    PayCase { kind, paid: true, prior: 0, rt_peers: 4, s: SFault::Ok, p: true, k: KFault::Ok, e: EFault::Ok, o: [true; 3], rpc: Default::default(), a: true, own_pos: seed % 3, seed }
 }
 
 fn check(case: &Case, ctx: &mut Ctx) {
